@@ -658,6 +658,13 @@ fn gen_actor(p: &Profile, rng: &mut Rng) -> Case {
             st0.push(a);
         }
     }
+    // now and then many timers at once (bookkeeping that only shows beyond a handful of handles)
+    if p.timers > 0 && g.rng.chance(1, 15) {
+        for _ in 0..9 {
+            let a = g.timer_act();
+            st0.push(a);
+        }
+    }
     if g.rng.chance(p.work, 20) {
         st0.push(Act::Work(g.rng.below(3) as u64));
     }
